@@ -94,16 +94,21 @@ where
             let tls_acceptor = TlsAcceptor::from(Arc::new(tls_config));
             while let Ok((inbound, _)) = listener.accept().await {
                 let codec = new_codec(context.as_ref())?;
-                match tls_acceptor.accept(inbound).await {
-                    Ok(inbound) => {
-                        if ws_config.is_some() {
-                            tokio::spawn(template::tcp::accept_websocket_then_replay(inbound, new_codec(context.as_ref())?));
-                        } else {
-                            tokio::spawn(template::tcp::relay(inbound, codec));
+                let tls_acceptor = tls_acceptor.clone();
+                let use_ws = ws_config.is_some();
+                // the handshake belongs to the connection's own task: a peer that stalls it must not hold up the others
+                tokio::spawn(async move {
+                    match tls_acceptor.accept(inbound).await {
+                        Ok(inbound) => {
+                            if use_ws {
+                                template::tcp::accept_websocket_then_replay(inbound, codec).await;
+                            } else {
+                                template::tcp::relay(inbound, codec).await;
+                            }
                         }
+                        Err(e) => error!("[tcp] tls handshake failed: {}", e),
                     }
-                    Err(e) => error!("[tcp] tls handshake failed: {}", e),
-                }
+                });
             }
         }
     }
